@@ -5,10 +5,18 @@ from . import kernel as KN
 from . import rejection as R
 
 PROPERTY = "C03"
+from . import filemodel   # noqa: E402
+from . import workers as _W   # noqa: E402
 CONTRACTS = [KN.make_AAinv, KN.likelihood_worker[1], KN.bgp] + R.select([R.full_inmem], {"C03"})
 CALLEES = dict(KN.CALLEES)
 CALLEES.update(R.INMEM_CALLEES)
 LIB = dict(KN.LIB)
+# the cached path: blocks of linear draws come back from the pool and are put together for any batching (make_full_samples[_worker])
+_chain = R.select(_W.post_worker + [_W.full_body], {"C03"})
+for _c in _chain:
+    _c.callees = dict(_W.CHAIN_CALLEES)
+    _c.lib = filemodel.install_repo_models(dict(_W.LIB))
+CONTRACTS += _chain
 HOOKS = KN.HOOKS
 AXIOMS = KN.AXIOMS
 LEMMAS = ["Marginal.lean"]
